@@ -4,7 +4,10 @@ package main
 // reconnects and concurrent SendActiveMessage calls over a small set of keys.
 
 import (
+	"fmt"
+	"github.com/cuteLittleDevil/go-jt808/service"
 	"math/rand"
+	"strings"
 	"sync"
 	"sync/atomic"
 	"time"
@@ -16,7 +19,21 @@ func init() {
 	// live-c11 <keys> <actions per worker> <trace>
 	cmds["live-c11"] = func(a []string) {
 		nkeys, nact := atoi(a[0]), atoi(a[1])
-		l := startLive(liveOpts{traceTo: a[2]})
+		// mode "keyfunc": the server runs with WithKeyFunc - the key is the fifth byte of the phone as a number without leading
+		// zeros, so that one terminal's key is the empty string
+		keyOf := func(ph []byte) string { return string(asciiDigits(ph)) }
+		opts := liveOpts{traceTo: a[2]}
+		if len(a) > 3 && a[3] == "keyfunc" {
+			keyOf = func(ph []byte) string { return strings.TrimLeft(fmt.Sprintf("%02x", ph[4]), "0") }
+			opts.keyFunc = func(m *service.Message) (string, bool) {
+				d := m.JTMessage.Header.TerminalPhoneNo // decimal digits, leading zeros stripped
+				for len(d) < 12 {
+					d = "0" + d
+				}
+				return strings.TrimLeft(d[8:10], "0"), true
+			}
+		}
+		l := startLive(opts)
 		r := newRand(1111)
 		phones := make([][]byte, nkeys)
 		for i := range phones {
@@ -37,7 +54,7 @@ func init() {
 						return
 					default:
 					}
-					key := string(asciiDigits(phones[rr.Intn(nkeys)]))
+					key := keyOf(phones[rr.Intn(nkeys)])
 					l.sendActive(-1, int(kid.Add(1)), key, consts.P8104QueryTerminalParams, nil, 60*time.Millisecond)
 					time.Sleep(time.Duration(rr.Intn(1500)) * time.Microsecond)
 				}
@@ -103,7 +120,7 @@ func init() {
 			l.writeHold.Store(&hold)
 			t.send(t.frame(0x0002, nil)) // joins; the reply's write callback parks the writer
 			time.Sleep(50 * time.Millisecond)
-			key := string(asciiDigits(ph))
+			key := keyOf(ph)
 			var bw sync.WaitGroup
 			for i := 0; i < 6; i++ {
 				bw.Add(1)
